@@ -5,6 +5,7 @@ package main
 import (
 	"fmt"
 	"os"
+	"runtime/pprof"
 	"strconv"
 
 	"xv/props"
@@ -45,7 +46,12 @@ func main() {
 		fmt.Fprintln(os.Stderr, "harness self-test failed; check is broken, nothing it would report can be believed")
 		os.Exit(2)
 	}
+	if pf := os.Getenv("XV_CPUPROFILE"); pf != "" {
+		f, _ := os.Create(pf)
+		pprof.StartCPUProfile(f)
+	}
 	c := run.New(id, tier, p.Level)
 	p.Run(c)
+	pprof.StopCPUProfile()
 	os.Exit(c.Finish())
 }
